@@ -30,7 +30,7 @@ theorem C09_unverified_never_served (cfg : LifeCfg) (c : ClientCert) (h : c.veri
 
 /-- a faulty TLS client has no command executed -/
 theorem C09_no_command_for_rejected (cfg : LifeCfg) (s : LifeSt) (kind id : String)
-    (hbad : tlsServed cfg (certOf kind) = false) :
+    (hbad : tlsServed cfg (certIn s.ca kind) = false) :
     (lifeStepA cfg s (.tlsbad kind id)).2.calls = s.calls := by
   simp only [lifeStepA, hbad]
   split
@@ -41,7 +41,7 @@ theorem C09_no_command_for_rejected (cfg : LifeCfg) (s : LifeSt) (kind id : Stri
 
 /-- a client action — whatever kind of faulty TLS client included — never stops the server -/
 def isClientAct : LifeAct → Bool
-  | .start | .stop | .restart | .stopstorm | .setpw _ => false
+  | .start | .stop | .restart | .stopstorm | .setpw _ | .setca _ => false
   | _ => true
 
 theorem clientAct_keeps_running (cfg : LifeCfg) (s : LifeSt) (a : LifeAct) (h : isClientAct a = true) :
@@ -60,14 +60,70 @@ theorem C09_listeners_survive (cfg : LifeCfg) (s : LifeSt) (attempts : List Life
     simp only [lifeFold, List.foldl]
     exact ih _ (fun x hx => h x (by simp [hx])) (by rw [clientAct_keeps_running cfg s a (h a (by simp))]; exact hr)
 
+theorem clientAct_keeps_ca (cfg : LifeCfg) (s : LifeSt) (a : LifeAct) (h : isClientAct a = true) :
+    (lifeStepA cfg s a).2.ca = s.ca := by
+  cases a <;> simp [isClientAct] at h <;> simp only [lifeStepA, LifeSt.drop]
+  all_goals (repeat' split) <;> rfl
+
+/-- the CA a listener trusts is fixed while the server runs: no client action changes it -/
+theorem C09_ca_fixed_by_clients (cfg : LifeCfg) (s : LifeSt) (attempts : List LifeAct)
+    (h : ∀ a ∈ attempts, isClientAct a = true) : (lifeFold cfg s attempts).ca = s.ca := by
+  induction attempts generalizing s with
+  | nil => rfl
+  | cons a as ih =>
+    simp only [lifeFold, List.foldl]
+    have := ih (lifeStepA cfg s a).2 (fun x hx => h x (by simp [hx]))
+    simp only [lifeFold] at this
+    rw [this, clientAct_keeps_ca cfg s a (h a (by simp))]
+
 theorem C09_good_client_served_afterwards (cfg : LifeCfg) (s : LifeSt) (attempts : List LifeAct)
     (h : ∀ a ∈ attempts, isClientAct a = true) (hr : s.running = true) (ht : cfg.tls = true)
-    (hcn : cfg.cn = none ∨ cfg.cn = some "client") :
+    (hcn : cfg.cn = none ∨ cfg.cn = some "client") (hca : s.ca = "main") :
     (lifeStepA cfg (lifeFold cfg s attempts) (.ping true "good")).1 = "ok" := by
   have hrun := C09_listeners_survive cfg s attempts h hr
-  have hserved : tlsServed cfg (certOf "good") = true := by
-    rcases hcn with hcn | hcn <;> simp [tlsServed, certOf, hcn]
+  have hca' := C09_ca_fixed_by_clients cfg s attempts h
+  have hserved : tlsServed cfg (certIn (lifeFold cfg s attempts).ca "good") = true := by
+    rw [hca', hca]
+    rcases hcn with hcn | hcn <;> simp [tlsServed, certIn, certOf, hcn]
   simp [lifeStepA, LifeCfg.up, hrun, ht, hserved]
+
+/-- **Only the CA in force**: whoever is served presented a chain issued by the CA the listener trusts now -/
+theorem C09_only_current_ca (cfg : LifeCfg) (ca name : String) (h : tlsServed cfg (certIn ca name) = true) :
+    issuerOf name = ca := by
+  have hv : (certIn ca name).verified = true := (C09_served_only_if cfg _ h).1
+  by_cases hm : ca = "main"
+  · subst hm
+    simp only [certIn, beq_self_eq_true, if_true] at hv
+    unfold certOf at hv
+    unfold issuerOf
+    split at hv <;> simp_all
+  · have hm' : (ca == "main") = false := by simpa using hm
+    simp only [certIn, hm', Bool.false_eq_true, if_false, Bool.and_eq_true, beq_iff_eq] at hv
+    exact hv.1
+
+/-- a CA rotation takes effect with the next (re)start … -/
+theorem C09_rotation_effective (cfg : LifeCfg) (s : LifeSt) (ca : String) :
+    (lifeStepA cfg (lifeStepA cfg s (.setca ca)).2 .restart).2.ca = ca ∧
+    (lifeStepA cfg s (.setca ca)).2.ca = s.ca := by
+  simp [lifeStepA]
+
+/-- … and from then on a client of the retired CA is rejected without a command being executed, whatever the
+common-name rule says -/
+theorem C09_retired_ca_rejected (cfg : LifeCfg) (s : LifeSt) (name : String) (hr : s.running = true) (ht : cfg.tls = true)
+    (hret : issuerOf name ≠ s.ca) :
+    lifeStepA cfg s (.ping true name) = ("rejected", s) := by
+  have hns : tlsServed cfg (certIn s.ca name) = false := by
+    cases hs : tlsServed cfg (certIn s.ca name) with
+    | false => rfl
+    | true => exact absurd (C09_only_current_ca cfg s.ca name hs) hret
+  simp [lifeStepA, LifeCfg.up, hr, ht, hns]
+
+example :
+    let cfg : LifeCfg := { tls := true, cn := some "client" }
+    let s1 := lifeFold cfg {} [.start, .setca "foreign"]
+    let s2 := lifeFold cfg {} [.start, .setca "foreign", .restart]
+    (lifeStepA cfg s1 (.ping true "good")).1 = "ok" ∧ (lifeStepA cfg s1 (.ping true "foreign")).1 = "rejected" ∧
+    (lifeStepA cfg s2 (.ping true "good")).1 = "rejected" ∧ (lifeStepA cfg s2 (.ping true "foreign")).1 = "ok" := by decide
 
 /-- the property's credential table, decided: who is served under a common-name rule `client` -/
 theorem C09_credential_table (cfg : LifeCfg) (h : cfg.cn = some "client") :
